@@ -112,7 +112,7 @@ def run(repo, rep, tier):
                         rep.violation("R-POLY", "Moon.%s" % f, "copy-differs:" + role,
                                       "its copy of the fundamental argument %s differs from the other copies in Moon.py: %s vs %s"
                                       % (role, [float(x) for x in p], [float(x) for x in best]), obligation=True)
-    rep.floor("copies of fundamental argument polynomials", ncopies, 18)
+    rep.floor("copies of fundamental argument polynomials", ncopies, 8)
     # E (eccentricity factor) copies: polynomials with c0 == 1 and tiny rate
     ecopies = {}
     for q, ps in per_func.items():
